@@ -148,3 +148,28 @@ ROUND45 = {
 }
 for _k, _v in ROUND45.items():
     ADDENDA[_k] = ADDENDA.get(_k, "") + _v
+
+# Rules added after the own probes and round 6 of the seeded changes (DESIGN.md §10.1, "Sixth round", "Own probes").
+ROUND6 = {
+    "C01": " Round 6: the claim of a pending write is atomic under the lock that guards the pending map (a section of another lock spanning look-up and delete does not count); the result builder does not depend on ackRequest; the binding look-up compares addresses by value (shared with C03/C09).",
+    "C02": " Round 6: the stages of the generic UpdateList are chained (every stage result is used, every later stage works on the list the delete stage left); the filters are extracted whatever the command's optional function element says; handlers hand the store the message's filter pair and never re-read filters from the command.",
+    "C03": " Round 6: the removal cascade revokes the bindings of a removed entity in the same iteration; a refused write is answered with or without ackRequest.",
+    "C04": " Round 6: engine stage results are used and chained; filters are extracted for every write (a lost filter makes a partial write a wholesale replacement).",
+    "C05": " Round 6: constant slice bounds on wire data need a length test; a custom decoder returns no error of its own.",
+    "C06": " Round 6: additions are applied in the loop that applies removals; only the removal that returns the entity shrinks a peer's entity list; the event handler list is never modified in place; the device-address completion does not depend on whether the entity was known.",
+    "C07": " Round 6: the discovery reply reads the entity list once; AddFunctionType has no early exit besides the role refusal and 'already registered'.",
+    "C08": " Round 6 and probes: the duplicate test rejects on the compared components alone; the reported list is wired entry by entry from the registry entry; the outcome of Add/RemoveSubscription is the handler's outcome; util.DeepCopy gets a fresh destination and copies through encoding/json; feature constructors keep the announced type.",
+    "C09": " Round 6 and probes: as C08 for bindings (single-binding test rejects on the server feature alone; reported list; outcome forwarded; DeepCopy; type kept).",
+    "C10": " Round 6: only the removal that returns the entity shrinks a peer's entity list.",
+    "C11": " Round 6 and probes: the store's persist flag is the one handed to the per-type UpdateList; no address of a package-level variable is stored into data-model values, also not as one alternative of a choice.",
+    "C12": " Round 6: the claim is atomic under the guarding lock (see C01).",
+    "C13": " Round 6: a custom decoder returns no error of its own (a reply that cannot be decoded never clears its request).",
+    "C14": " Round 6: the merge run by the cache update leaves the received items alone (truth table of model.Merge, shared with C02).",
+    "C15": " Round 6 and probes: the level filter is an equality test; no lock-order cycle passes through a lock of the event bus.",
+    "C16": " Round 6 and probes: every tick refreshes (no condition between select and SetData); the duration reader returns the parsed value unmodified; no computed string becomes a temporal type outside package model.",
+    "C18": " Round 6: every filter value a builder computes reaches the filter list (flow-sensitive).",
+    "C19": " Round 6: normalising parse; reader returns the parsed duration unmodified; temporal text is produced by the model's constructors only; decoders add no rejection.",
+    "C20": " Round 6: no address of a package-level variable in use-case data (choices included).",
+}
+for _k, _v in ROUND6.items():
+    ADDENDA[_k] = ADDENDA.get(_k, "") + _v
